@@ -570,4 +570,27 @@ theorem split_update_revives :
       lookup d2 5 = some i ∧ d2.events = [.added 1 5, .removed 1 5] ∧ (register d2 ⟨5, 0, 1, 1, [1]⟩).2 = none := by
   decide
 
+/-- `ServiceReady` that takes its copy of the published services *before* it has the mutex: the move from staging to the
+    services happens on that copy, which then replaces whatever was published meanwhile -/
+def readyOnCopy (copy : Nat → Option Info) (d : Dir) (id : Nat) : Dir × Bool :=
+  match d.staging id with
+  | some i => ({ d with staging := put d.staging id none, services := put copy id (some i),
+                        events := d.events ++ [.added id i.name] }, true)
+  | none => (d, false)
+
+/-- **A copy taken before the lock republishes a stale set**: two services are registered; the `ServiceReady` of the
+    second takes its copy, then waits for the mutex while the first becomes ready; the stale copy is published: the first
+    service — ready, announced, never unregistered — is not found and not listed (the seeded change C15o).  With `ready`
+    in its place both are found. -/
+theorem stale_copy_loses_a_service :
+    let d0 := run {} [.register ⟨5, 0, 1, 1, [1]⟩, .register ⟨6, 0, 1, 1, [1]⟩]
+    let copy := d0.services
+    let d1 := (ready d0 1).1
+    let d2 := (readyOnCopy copy d1 2).1
+    (readyOnCopy copy d1 2).2 = true ∧ lookup d2 5 = none ∧ (lookup d2 6).isSome = true ∧
+      d2.events = [.added 1 5, .added 2 6] ∧
+      (lookup (ready d1 2).1 5).isSome = true ∧ (lookup (ready d1 2).1 6).isSome = true := by
+  decide
+
+
 end QiVerif.C15
